@@ -1,7 +1,7 @@
 """Determinism self-test (DESIGN 7).
 
 Every run's canonical event log is digested; the same seeds are executed
- (a) twice in this interpreter at two different worker counts, and
+ (a) twice in this interpreter at two different worker counts (16 and 7), and
  (b) once more in a re-exec'd interpreter with another PYTHONHASHSEED,
 and all digests must agree.  Exit 0 on agreement, 2 otherwise.
 """
@@ -20,8 +20,10 @@ def _jobs(props, n, tier, seed):
   for prop in props:
     for engine, profile, _, _ in checks.PLANS[prop]:
       k = n
-      if profile in ("ec_big",):
-        k = min(n, 1)
+      if profile in ("ec_big", "ec_default", "rsa_lhw", "rsa_huge",
+                     "rsa_large", "ecdsa_large", "ec_allcurves",
+                     "ecdsa_allcurves"):
+        k = min(n, 1) if profile != "ec_default" else 0
       elif profile in ("ec", "ecdsa", "e2e"):
         k = max(1, n // 4)
       for i in range(k):
@@ -57,14 +59,14 @@ def run(args):
   # (a) second pass with another worker count
   for prop in props:
     jobs = _jobs([prop], args.runs, args.tier, seed)
-    second = _digests(jobs, 3)
+    second = _digests(jobs, 7)
     for key, dg in out[prop].items():
       total += 1
       if second.get(key) != dg or any(str(d).startswith("ERR") for d in dg):
         bad += 1
         print("NONDETERMINISTIC (workers): %s %s: %s vs %s" %
               (prop, key, dg, second.get(key)))
-  print("selftest: %d runs digested twice at worker counts %d and 3: %d "
+  print("selftest: %d runs digested twice at worker counts %d and 7: %d "
         "mismatches" % (total, args.workers or 16, bad))
   # (b) fresh interpreter, other hash seed
   if args.reexec:
